@@ -59,6 +59,7 @@ class Gen:
     def dom(self, e):
         """make sure e lives on the mesh before a derivative operator is applied to it (derivatives of
         literal-only expressions are rejected by UFL: that is invalid input, not a finding)"""
+        e = ufl.as_ufl(e)
         if extract_domains(e):
             return e
         e2 = self.pick(self.f) * e
